@@ -133,6 +133,9 @@ enum TaskKind {
     Block,
     /// a function that holds the arbiter's thread until the director `open`s it (3 s at most)
     Gate,
+    /// a function that has the OWNER `Arbiter` of the very arbiter it is sent to moved into it and calls
+    /// `join()` on it there: that call cannot return while the loop that runs it is alive
+    SelfJoin,
 }
 
 #[derive(Clone, Debug)]
@@ -150,6 +153,9 @@ struct Scenario {
     done: bool,
     /// `rt=custom` on the case line: `System::with_tokio_rt` / `Arbiter::with_tokio_rt`
     custom_rt: bool,
+    /// `rt=slow`: `rt=custom`, and the runtime factory of the last arbiter created in front of the stops
+    /// (and of the first one a batch creates) takes its time
+    slow_rt: bool,
     kinds: Vec<Kind>,
     entries: Vec<Entry>,
     /// c09: a `batch` line exists
@@ -172,6 +178,8 @@ struct Scenario {
     task_waited: Vec<bool>,
     /// c10: `late` lines: (target, from a task on the system thread?, first of its two task numbers)
     lates: Vec<(usize, bool, usize)>,
+    /// c10: targets whose owner object goes into a `selfjoin` task (target, task)
+    selfjoined: Vec<(usize, usize)>,
     stopped: Vec<bool>, // c10: a stop command exists for this arbiter
 }
 
@@ -333,8 +341,17 @@ fn custom_tokio_rt() -> tokio::runtime::Runtime {
     tokio::runtime::Builder::new_current_thread().enable_all().build().unwrap()
 }
 
-fn new_arbiter(custom: bool) -> Arbiter {
-    if custom {
+/// how long the slow runtime factory of `rt=slow` takes on the new arbiter's thread, in front of the
+/// registration: `Arbiter::with_tokio_rt` must not return before the arbiter is registered however long
+const SLOW_FACTORY: Duration = Duration::from_millis(350);
+
+fn new_arbiter(custom: bool, slow: bool) -> Arbiter {
+    if slow {
+        Arbiter::with_tokio_rt(|| {
+            thread::sleep(SLOW_FACTORY);
+            custom_tokio_rt()
+        })
+    } else if custom {
         Arbiter::with_tokio_rt(custom_tokio_rt)
     } else {
         Arbiter::new()
@@ -352,8 +369,8 @@ fn new_system_runner(custom: bool) -> actix_rt::SystemRunner {
 /// `Arbiter::new()` (on the calling thread, which must belong to a System) plus the per-kind set-up;
 /// `after_new` runs in the very next statement after `Arbiter::new()` returned.
 /// Returns the slot and, for `early` / `done`, what `stop()` returned.
-fn make_slot(k: Kind, rng: &mut Rng, custom: bool, after_new: &mut dyn FnMut()) -> (ArbSlot, Option<bool>) {
-    let arb = new_arbiter(custom);
+fn make_slot(k: Kind, rng: &mut Rng, custom: bool, slow: bool, after_new: &mut dyn FnMut()) -> (ArbSlot, Option<bool>) {
+    let arb = new_arbiter(custom, slow);
     after_new();
     let handle = arb.handle();
     let ended = Arc::new(AtomicBool::new(false));
@@ -417,7 +434,9 @@ fn issue_stop(sys: &System, code: i32, plain: bool) {
 type Late = Arc<Mutex<Vec<(ArbSlot, Option<bool>)>>>;
 
 /// the actions of one entry, back to back, on the calling thread (`sys`: None = `System::current()`)
-fn perform(actions: &[Action], sys: Option<&System>, rng: &mut Rng, custom: bool, plain: bool, late: &Late) {
+fn perform(actions: &[Action], sys: Option<&System>, rng: &mut Rng, custom: (bool, bool), plain: bool, late: &Late) {
+    // `custom.1` (`rt=slow`): the first arbiter created here has a slow runtime factory
+    let (custom, mut slow) = custom;
     for a in actions {
         match a {
             Action::Stop(c) => match sys {
@@ -425,7 +444,8 @@ fn perform(actions: &[Action], sys: Option<&System>, rng: &mut Rng, custom: bool
                 None => issue_stop(&System::current(), *c, plain),
             },
             Action::New(k) => {
-                let x = make_slot(*k, rng, custom, &mut || {});
+                let x = make_slot(*k, rng, custom, slow, &mut || {});
+                slow = false;
                 late.lock().unwrap().push(x);
             }
         }
@@ -443,6 +463,7 @@ fn exec_c09(sc: &Scenario, mode_run: bool, jseed: u64) -> Out {
     let entries = sc.entries.clone();
     let ne = entries.len();
     let custom = sc.custom_rt;
+    let slow = sc.slow_rt;
     let plain = (jseed >> 3) & 1 == 0;
     let mut rng = Rng::new(jseed);
     let late: Late = Arc::new(Mutex::new(vec![]));
@@ -503,7 +524,8 @@ fn exec_c09(sc: &Scenario, mode_run: bool, jseed: u64) -> Out {
         let nk = kinds2.len();
         for (ki, k) in kinds2.iter().enumerate() {
             jitter(&mut rng_sys);
-            let (slot, e) = make_slot(*k, &mut rng_sys, custom, &mut || {
+            // `rt=slow`: the last arbiter created in front of the stops has a slow runtime factory
+            let (slot, e) = make_slot(*k, &mut rng_sys, custom, slow && ki + 1 == nk, &mut || {
                 if let (Some(c), true) = (imm_code, ki + 1 == nk) {
                     System::current().stop_with_code(c);
                     immediate_done = true;
@@ -531,7 +553,7 @@ fn exec_c09(sc: &Scenario, mode_run: bool, jseed: u64) -> Out {
                         return;
                     }
                     jitter(&mut rng_sys);
-                    perform(&e.actions, None, &mut rng_sys, custom, plain, &late_sys);
+                    perform(&e.actions, None, &mut rng_sys, (custom, slow), plain, &late_sys);
                     let _ = ack.send(());
                 }
                 Origin::SysTask => {
@@ -540,7 +562,7 @@ fn exec_c09(sc: &Scenario, mode_run: bool, jseed: u64) -> Out {
                     sys.arbiter().spawn(async move {
                         let _ = gate.await;
                         // one poll: no await between the actions
-                        perform(&e.actions, None, &mut r, custom, plain, &late);
+                        perform(&e.actions, None, &mut r, (custom, slow), plain, &late);
                         let _ = ack.send(());
                     });
                 }
@@ -587,7 +609,7 @@ fn exec_c09(sc: &Scenario, mode_run: bool, jseed: u64) -> Out {
                 let mut r = Rng::new(jseed ^ (0x99 + i as u64));
                 slots[k].handle.spawn(async move {
                     let _ = gate.await;
-                    perform(&actions, None, &mut r, custom, plain, &late);
+                    perform(&actions, None, &mut r, (custom, slow), plain, &late);
                     let _ = ack.send(());
                 });
             }
@@ -601,7 +623,7 @@ fn exec_c09(sc: &Scenario, mode_run: bool, jseed: u64) -> Out {
                 thread::spawn(move || {
                     let _ = gate.blocking_recv();
                     jitter(&mut r);
-                    perform(&actions, Some(&sys), &mut r, custom, plain, &late);
+                    perform(&actions, Some(&sys), &mut r, (custom, slow), plain, &late);
                     let _ = ack.send(());
                 });
             }
@@ -867,6 +889,10 @@ struct TaskLog {
     handles: Mutex<Vec<ArbiterHandle>>,
     /// return values of commands sent from inside gate tasks
     gate_ack: Mutex<Option<mpsc::Sender<bool>>>,
+    /// owner objects on their way into a `selfjoin` task (by task number)
+    selfjoin_owner: Mutex<HashMap<usize, Arbiter>>,
+    /// `selfjoin` tasks whose `join()` returned: (task, Ok?, value of the start counter at that moment)
+    selfjoin_ret: Mutex<Vec<(usize, bool, usize)>>,
 }
 
 /// what the director tells a task that holds its arbiter's thread
@@ -975,6 +1001,19 @@ fn do_spawn(h: &Sender10, kind: TaskKind, task: usize, log: Arc<TaskLog>) -> boo
         }),
         // holds the arbiter's thread until the director opens the gate: everything sent meanwhile
         // is found by the arbiter's loop in one go
+        // `join()` on the arbiter's own owner object from a task of that arbiter.  (Real code: the OS refuses
+        // the self-join, std panics, tokio contains the panic in the task: nothing is recorded.)
+        TaskKind::SelfJoin => {
+            let owner = log.selfjoin_owner.lock().unwrap().remove(&task);
+            spf!(move || {
+                log.start(task);
+                if let Some(a) = owner {
+                    let r = a.join();
+                    let at = log.seq.load(Ordering::SeqCst);
+                    log.selfjoin_ret.lock().unwrap().push((task, r.is_ok(), at));
+                }
+            })
+        }
         // … and sends commands from inside, on the director's request: a task running ON an arbiter that
         // sends (to its own arbiter or another) while its thread is held
         TaskKind::Gate => {
@@ -1025,7 +1064,7 @@ struct Sys10 {
 /// thread hosts `n` other Systems one after the other, each of which does a little work (a local task;
 /// every other one also an arbiter that comes and goes); their runners are kept alive until the
 /// thread ends, or dropped at once.
-fn start_system(narb: usize, host: Option<(usize, bool)>, custom: bool) -> Result<Sys10, Out> {
+fn start_system(narb: usize, host: Option<(usize, bool)>, custom: bool, slow: bool) -> Result<Sys10, Out> {
     let fail = |what: &str, t3: bool| Out {
         log: format!("setup={what}"),
         verdict: format!("setup={what}"),
@@ -1054,7 +1093,7 @@ fn start_system(narb: usize, host: Option<(usize, bool)>, custom: bool) -> Resul
         }
         let runner = new_system_runner(custom);
         let sys = System::current();
-        let arbs: Vec<Arbiter> = (0..narb).map(|_| new_arbiter(custom)).collect();
+        let arbs: Vec<Arbiter> = (0..narb).map(|i| new_arbiter(custom, slow && i + 1 == narb)).collect();
         drop(lock);
         let _ = setup_tx.send((sys, thread::current().id(), arbs));
         let r = runner.run_with_code().map_err(|e| e.to_string());
@@ -1080,7 +1119,7 @@ fn exec_c10(sc: &Scenario, jseed: u64) -> Out {
     let nreal = narb - sc.sys_idx.map_or(0, |_| 1);
     let mut rng = Rng::new(jseed);
     let mut t3: Vec<(String, String)> = vec![];
-    let Sys10 { sys, sys_thread, arbs, res_rx } = match start_system(nreal, sc.host, sc.custom_rt) {
+    let Sys10 { sys, sys_thread, arbs, res_rx } = match start_system(nreal, sc.host, sc.custom_rt, sc.slow_rt) {
         Ok(x) => x,
         Err(out) => return out,
     };
@@ -1093,6 +1132,8 @@ fn exec_c10(sc: &Scenario, jseed: u64) -> Out {
         gates: Mutex::new(HashMap::new()),
         handles: Mutex::new(vec![]),
         gate_ack: Mutex::new(None),
+        selfjoin_owner: Mutex::new(HashMap::new()),
+        selfjoin_ret: Mutex::new(vec![]),
     });
     // per target: the owner object (None for the system arbiter) and a handle
     let mut real = arbs.into_iter();
@@ -1143,6 +1184,11 @@ fn exec_c10(sc: &Scenario, jseed: u64) -> Out {
         }
         match c {
             Cmd10::Spawn { arb, via, kind, task, .. } => {
+                if *kind == TaskKind::SelfJoin {
+                    if let Some(a) = owners[*arb].take() {
+                        log.selfjoin_owner.lock().unwrap().insert(*task, a);
+                    }
+                }
                 let r = match via {
                     Via::Own => match &owners[*arb] {
                         Some(a) => do_spawn(&Sender10::Arb(a), *kind, *task, log.clone()),
@@ -1272,7 +1318,22 @@ fn exec_c10(sc: &Scenario, jseed: u64) -> Out {
     for ai in 0..narb {
         let Some(a) = owners[ai].take() else {
             joins.push("-");
-            seq_at_join.push(usize::MAX);
+            // the owner went into a `selfjoin` task: if that `join()` returned, the loop had ended by then
+            let sj = sc.selfjoined.iter().find(|x| x.0 == ai).map(|x| x.1);
+            let ret = log.selfjoin_ret.lock().unwrap().iter().find(|r| Some(r.0) == sj).map(|r| r.2);
+            seq_at_join.push(ret.unwrap_or(usize::MAX));
+            if sj.is_some() {
+                // it cannot be joined from here; its loop has ended when its channel refuses commands
+                let t0 = Instant::now();
+                let mut gone = !handles[ai].spawn_fn(|| {});
+                while !gone && t0.elapsed() < WATCHDOG {
+                    thread::sleep(Duration::from_micros(200));
+                    gone = !handles[ai].spawn_fn(|| {});
+                }
+                if !gone {
+                    t3.push(("C10".into(), format!("arbiter {ai} still accepted commands {WATCHDOG:?} after stop()")));
+                }
+            }
             continue;
         };
         let r = join_watchdog(a, if hung { Duration::from_millis(500) } else { WATCHDOG });
@@ -1423,7 +1484,9 @@ fn exec_c10(sc: &Scenario, jseed: u64) -> Out {
         t3.push(("C10".into(), format!("the system arbiter still accepted commands {WATCHDOG:?} after stop()")));
     }
     if late {
-        t3.push(("C10".into(), format!("join() returned before the loop had ended: a task started afterwards or pending futures {undropped:?} were still alive")));
+        let selfj = log.selfjoin_ret.lock().unwrap().clone();
+        let how = if selfj.is_empty() { String::new() } else { format!(" (join() called from task(s) {:?} running on the arbiter's own thread returned)", selfj.iter().map(|r| r.0).collect::<Vec<_>>()) };
+        t3.push(("C10".into(), format!("join() returned before the loop had ended{how}: a task started afterwards or pending futures {undropped:?} were still alive")));
     }
     if post.iter().any(|b| *b) || post_stop.iter().any(|b| *b) {
         t3.push(("C10".into(), format!("spawn/stop after the arbiter was joined returned true: spawn={post:?} stop={post_stop:?}")));
@@ -1483,7 +1546,7 @@ fn exec_c10(sc: &Scenario, jseed: u64) -> Out {
     }
     v.push(format!("rets={}", if rets.is_empty() { "-".into() } else { rets.iter().map(|r| b(*r)).collect::<Vec<_>>().join("") }));
     v.push(format!("waits={}/{}", waits.iter().filter(|w| w.1).count(), waits.len()));
-    v.push(format!("joins={}/{}", joins.iter().filter(|j| **j == "ok").count(), nreal));
+    v.push(format!("joins={}/{}", joins.iter().filter(|j| **j == "ok").count(), nreal - sc.selfjoined.len()));
     v.push(format!("sysgone={sysgone_s}"));
     v.push(format!("post={}/{}", post.iter().chain(post_stop.iter()).filter(|x| **x).count(), 2 * narb));
     v.push(format!("ids={ids}"));
@@ -1514,7 +1577,7 @@ fn count_pre(sc: &Scenario, a: usize) -> usize {
 fn exec_ident(sc: &Scenario) -> Out {
     let narb = sc.narb;
     let mut t3 = vec![];
-    let Sys10 { sys, sys_thread, arbs, res_rx } = match start_system(narb, sc.host, sc.custom_rt) {
+    let Sys10 { sys, sys_thread, arbs, res_rx } = match start_system(narb, sc.host, sc.custom_rt, sc.slow_rt) {
         Ok(x) => x,
         Err(out) => return out,
     };
@@ -1678,6 +1741,82 @@ fn new_system() -> actix_rt::SystemRunner {
     System::new()
 }
 
+/// `sysids <threads> <rounds>`: in every round, `threads` OS threads construct a System at the same moment
+/// (a barrier inside the runtime factory of `System::with_tokio_rt`, i.e. right in front of
+/// `System::construct`), each starts an arbiter and asks a task on it for `System::current().id()`; all
+/// Systems of a round stay alive until every id has been read.  `System::current()` identifies the
+/// arbiter's system: the arbiter sees its creator's id, the ids of simultaneously live Systems differ, and
+/// no id is handed out twice.
+fn exec_sysids(threads: usize, rounds: usize) -> Result<String, String> {
+    use std::sync::Barrier;
+    let (tx, rx) = mpsc::channel::<Result<(), String>>();
+    thread::spawn(move || {
+        // nobody shifts the process-wide counters meanwhile
+        let _l = ID_LOCK.read().unwrap_or_else(|e| e.into_inner());
+        let mut seen = std::collections::HashSet::new();
+        for round in 0..rounds {
+            let start = Arc::new(Barrier::new(threads));
+            let done = Arc::new(Barrier::new(threads));
+            let ws: Vec<_> = (0..threads)
+                .map(|_| {
+                    let (start, done) = (start.clone(), done.clone());
+                    thread::spawn(move || {
+                        let runner = System::with_tokio_rt(move || {
+                            let rt = custom_tokio_rt();
+                            start.wait();
+                            rt
+                        });
+                        let creator = System::current().id();
+                        let arb = Arbiter::new();
+                        let (tx, rx) = mpsc::channel();
+                        arb.spawn_fn(move || {
+                            let _ = tx.send(System::current().id());
+                        });
+                        let seen_by_arbiter = rx.recv_timeout(WATCHDOG).ok();
+                        done.wait();
+                        arb.stop();
+                        let _ = arb.join();
+                        drop(runner);
+                        (creator, seen_by_arbiter)
+                    })
+                })
+                .collect();
+            let mut ids = vec![];
+            for w in ws {
+                match w.join() {
+                    Ok(x) => ids.push(x),
+                    Err(_) => {
+                        let _ = tx.send(Err(format!("round {round}: a thread constructing a System panicked")));
+                        return;
+                    }
+                }
+            }
+            let mut this_round = std::collections::HashSet::new();
+            for (creator, by_arb) in ids {
+                let e = if by_arb != Some(creator) {
+                    Some(format!("round {round}: a task on an arbiter of system {creator} saw System::current().id() = {by_arb:?}"))
+                } else if !this_round.insert(creator) {
+                    Some(format!("round {round}: two simultaneously live Systems (and their arbiters) report System::current().id() == {creator}"))
+                } else if !seen.insert(creator) {
+                    Some(format!("round {round}: system id {creator} was handed out a second time"))
+                } else {
+                    None
+                };
+                if let Some(e) = e {
+                    let _ = tx.send(Err(e));
+                    return;
+                }
+            }
+        }
+        let _ = tx.send(Ok(()));
+    });
+    match rx.recv_timeout(Duration::from_secs(120)) {
+        Ok(Ok(())) => Ok(format!("sysids=distinct threads={threads} rounds={rounds}")),
+        Ok(Err(e)) => Err(e),
+        Err(_) => Err("hang".into()),
+    }
+}
+
 /// `blockon <variant> <pends> <value>`
 fn exec_blockon(variant: &str, pends: usize, value: i32) -> Result<String, String> {
     let v = variant.to_string();
@@ -1720,6 +1859,7 @@ enum LineRes {
     GoC10 { j: u64, head: String },
     Ident,
     BlockOn(String, usize, i32),
+    SysIds(usize, usize),
 }
 
 fn feed(sc: &mut Scenario, ws: &[&str]) -> LineRes {
@@ -1731,7 +1871,8 @@ fn feed(sc: &mut Scenario, ws: &[&str]) -> LineRes {
             Some(&"c10") => 10,
             _ => 0,
         };
-        sc.custom_rt = ws[3.min(ws.len())..].contains(&"rt=custom");
+        sc.slow_rt = ws[3.min(ws.len())..].contains(&"rt=slow");
+        sc.custom_rt = sc.slow_rt || ws[3.min(ws.len())..].contains(&"rt=custom");
         return LineRes::Plain("ok".into());
     }
     if sc.done {
@@ -1876,6 +2017,13 @@ fn feed(sc: &mut Scenario, ws: &[&str]) -> LineRes {
                 return bad();
             }
             let Some(via) = parse_via(sc, a, via) else { return bad() };
+            if kind == TaskKind::SelfJoin {
+                // an `Arbiter::new` target that still has its owner object, which no `late` line needs
+                if sc.sys_idx == Some(a) || sc.selfjoined.iter().any(|x| x.0 == a) || sc.lates.iter().any(|l| l.0 == a) {
+                    return bad();
+                }
+                sc.selfjoined.push((a, sc.ntask));
+            }
             let task = sc.ntask;
             sc.ntask += 1;
             sc.nlines += 1;
@@ -1887,7 +2035,7 @@ fn feed(sc: &mut Scenario, ws: &[&str]) -> LineRes {
         }
         (10, ["spawnn", a, via, kind, n]) => {
             let (Some(a), Some(kind), Some(n)) = (parse_nat(a), parse_kind(kind), parse_nat(n)) else { return bad() };
-            if a >= sc.narb || sc.nlines >= MAX_LINES || !(2..=300).contains(&n) || sc.ntask + n > MAX_TASKS || kind == TaskKind::Gate {
+            if a >= sc.narb || sc.nlines >= MAX_LINES || !(2..=300).contains(&n) || sc.ntask + n > MAX_TASKS || kind == TaskKind::Gate || kind == TaskKind::SelfJoin {
                 return bad();
             }
             let Some(via) = parse_via(sc, a, via) else { return bad() };
@@ -1949,7 +2097,7 @@ fn feed(sc: &mut Scenario, ws: &[&str]) -> LineRes {
             // an `Arbiter::new` target (the system arbiter has no owner object), once per target; from the
             // system thread only while the system arbiter is not itself a target (it must stay alive)
             if a >= sc.narb || sc.sys_idx == Some(a) || sc.nlines >= MAX_LINES || sc.ntask + 2 > MAX_TASKS
-                || sc.lates.iter().any(|l| l.0 == a) || (on_sys && sc.sys_idx.is_some())
+                || sc.lates.iter().any(|l| l.0 == a) || (on_sys && sc.sys_idx.is_some()) || sc.selfjoined.iter().any(|x| x.0 == a)
             {
                 return bad();
             }
@@ -1978,6 +2126,13 @@ fn feed(sc: &mut Scenario, ws: &[&str]) -> LineRes {
             }
             sc.done = true;
             LineRes::Ident
+        }
+        (10, ["sysids", t, r]) => {
+            let (Some(t), Some(r)) = (parse_nat(t), parse_nat(r)) else { return bad() };
+            if !(2..=8).contains(&t) || !(1..=1000).contains(&r) {
+                return bad();
+            }
+            LineRes::SysIds(t, r)
         }
         (10, ["blockon", v, p, x]) => {
             let (Some(p), Some(x)) = (parse_nat(p), parse_i32(x)) else { return bad() };
@@ -2047,6 +2202,7 @@ fn parse_kind(s: &str) -> Option<TaskKind> {
         "fnpanic" => TaskKind::FnPanic,
         "block" => TaskKind::Block,
         "gate" => TaskKind::Gate,
+        "selfjoin" => TaskKind::SelfJoin,
         _ => return None,
     })
 }
@@ -2078,6 +2234,13 @@ fn run_case(lines: &[String]) -> CaseOut {
                 out.lines.push((line.clone(), o.verdict));
                 out.t3.extend(o.t3);
             }
+            LineRes::SysIds(t, r) => match exec_sysids(t, r) {
+                Ok(v) => out.lines.push((line.clone(), v)),
+                Err(e) => {
+                    out.t3.push(("C10".into(), format!("system ids: {e}")));
+                    out.lines.push((line.clone(), format!("sysids=bad threads={t} rounds={r}")));
+                }
+            },
             LineRes::BlockOn(v, p, x) => match exec_blockon(&v, p, x) {
                 Ok(r) => {
                     if r != format!("out={x}") {
@@ -2365,8 +2528,53 @@ fn directed_batch_c09(w: &mut dyn Write, rng: &mut Rng, thorough: bool) {
     }
 }
 
+/// Directed `rt=slow` scenarios (both tiers, in front): `Arbiter::with_tokio_rt` with a runtime factory that
+/// takes its time on the new thread — the constructor must not return before the arbiter is registered,
+/// so a stop issued right after it reaches that arbiter too.
+fn directed_slow_c09(w: &mut dyn Write, rng: &mut Rng, thorough: bool) {
+    let mut n = 0;
+    let mut case = |w: &mut dyn Write, rng: &mut Rng, lines: &[&str], mode: &str| {
+        writeln!(w, "case s{n} c09 rt=slow").unwrap();
+        n += 1;
+        for l in lines {
+            writeln!(w, "{l}").unwrap();
+        }
+        writeln!(w, "go {mode} j={}", rng.next() % 1_000_000).unwrap();
+    };
+    case(w, rng, &["arb running", "stop sys-pre 3"], "code");
+    case(w, rng, &["arb busy", "arb running", "stop foreign 0"], "run");
+    case(w, rng, &["batch sys-pre nr s1"], "code");
+    case(w, rng, &["arb dropped", "batch sys-task nr s2 nd s5"], "run");
+    if thorough {
+        for kinds in [&["running"][..], &["dropped"], &["busy"], &["early", "running"], &["done", "busy"], &["running", "dropped", "running"]] {
+            for origin in ["sys-pre", "sys-task", "foreign", "arb:0"] {
+                if origin == "arb:0" && matches!(kinds[0], "early" | "done") {
+                    continue;
+                }
+                let mut lines: Vec<String> = kinds.iter().map(|k| format!("arb {k}")).collect();
+                lines.push(format!("stop {origin} {}", *rng.pick(&[0, 4, -2])));
+                let ls: Vec<&str> = lines.iter().map(|x| x.as_str()).collect();
+                let mode = if rng.chance(1, 2) { "code" } else { "run" };
+                case(w, rng, &ls, mode);
+            }
+        }
+        for origin in ["sys-pre", "sys-task", "arb:0"] {
+            for items in ["nr s1", "nd s1 nr s2", "s1 nr s2", "nb nr s7"] {
+                let mut lines = vec![];
+                if origin == "arb:0" {
+                    lines.push("arb running".to_string());
+                }
+                lines.push(format!("batch {origin} {items}"));
+                let ls: Vec<&str> = lines.iter().map(|x| x.as_str()).collect();
+                case(w, rng, &ls, "code");
+            }
+        }
+    }
+}
+
 fn gen_c09(a: &Args, w: &mut dyn Write) {
     let mut rng = Rng::new(a.seed ^ 0xC09);
+    directed_slow_c09(w, &mut rng, a.tier == "thorough");
     directed_batch_c09(w, &mut rng, a.tier == "thorough");
     directed_c09(w, &mut rng, a.tier == "thorough");
     if a.tier == "thorough" {
@@ -2463,12 +2671,17 @@ const VIAS: [&str; 3] = ["own", "h1", "h2"];
 /// Directed C10 scenarios (both tiers, in front).
 fn directed_c10(w: &mut dyn Write, rng: &mut Rng, n: &mut usize, thorough: bool) {
     let mut case = |w: &mut dyn Write, lines: &[String], rng: &mut Rng| {
-        writeln!(w, "case d{} c10", *n).unwrap();
+        // a first line `@flags` goes onto the case line
+        let (flags, lines) = match lines.first() {
+            Some(f) if f.starts_with('@') => (format!(" {}", &f[1..]), &lines[1..]),
+            _ => (String::new(), lines),
+        };
+        writeln!(w, "case d{} c10{flags}", *n).unwrap();
         *n += 1;
         for l in lines {
             writeln!(w, "{l}").unwrap();
         }
-        if lines.last().map(|l| l.as_str()) != Some("ident") {
+        if !lines.last().map(|l| l == "ident" || l.starts_with("sysids")).unwrap_or(false) {
             writeln!(w, "go j={}", rng.next() % 1_000_000).unwrap();
         }
     };
@@ -2476,6 +2689,16 @@ fn directed_c10(w: &mut dyn Write, rng: &mut Rng, n: &mut usize, thorough: bool)
     // (0) a task running ON an arbiter sends while its thread is held: to its own arbiter through
     // `Arbiter::current()` (`c0`) or a captured handle (`t0`), behind commands / a stop other threads
     // have already sent; to another arbiter; stopping its own arbiter
+    // (000) `join()` on the owner object from a task of the arbiter itself never returns while the loop is
+    // alive (what is sent afterwards still starts, so a returned join would have lied); Systems constructed at
+    // the same moment on several threads get different ids; a slow runtime factory
+    case(w, &[s("arb"), s("spawn 0 h1 selfjoin"), s("wait t0"), s("spawn 0 h2 fn"), s("wait t1"), s("stop 0 own")], rng);
+    case(w, &[s("arb"), s("arb"), s("spawn 0 own gate"), s("wait t0"), s("spawn 0 c0 selfjoin"), s("spawn 0 h1 fn"), s("spawn 1 t0 selfjoin"), s("spawn 1 own pend"), s("wait t4"), s("open t0"), s("wait t2"), s("stop 0 h1"), s("stop 1 h2")], rng);
+    case(w, &[format!("sysids 4 {}", if thorough { 400 } else { 150 })], rng);
+    if thorough {
+        case(w, &[s("sysids 8 150"), s("sysids 2 400"), s("sysids 3 200")], rng);
+    }
+    case(w, &[s("@rt=slow"), s("arb"), s("arb"), s("spawn 1 own fn"), s("wait t0"), s("spawn 1 h1 selfjoin"), s("spawn 1 own fn"), s("wait t2"), s("stop 0 own"), s("stop 1 h1")], rng);
     // (00) sends through the OWNER object once the loop has ended — from a thread with a live System (a task
     // on the system thread) and from one without: false, and nothing starts anywhere
     case(w, &[s("arb"), s("spawn 0 own fn"), s("wait t0"), s("late 0 sys"), s("stop 0 own")], rng);
@@ -2573,12 +2796,14 @@ fn gen_c10(a: &Args, w: &mut dyn Write) {
             writeln!(w, "{}", if with_sys && i == sys_pos { "sysarb" } else { "arb" }).unwrap();
         }
         let mut tasks: Vec<usize> = vec![]; // task -> arb (usize::MAX: the two tasks of a `late` line)
+        let mut no_owner = vec![false; narb]; // a `late` line needs the owner object / it went into a `selfjoin` task
         // a third of the cases: owner-side sends after the loop has ended, for some of the targets
         if rng.chance(1, 3) {
             for i in 0..narb {
                 if !(with_sys && i == sys_pos) && rng.chance(2, 3) {
                     writeln!(w, "late {i} {}", if with_sys || rng.chance(1, 3) { "dir" } else { "sys" }).unwrap();
                     tasks.extend([usize::MAX, usize::MAX]);
+                    no_owner[i] = true;
                 }
             }
         }
@@ -2618,7 +2843,12 @@ fn gen_c10(a: &Args, w: &mut dyn Write) {
                     tasks.extend(std::iter::repeat(arb).take(cnt));
                 }
             } else {
-                let kind = KINDS10[if rng.chance(1, 3) { rng.below(2) } else { rng.below(8) }];
+                let mut kind = KINDS10[if rng.chance(1, 3) { rng.below(2) } else { rng.below(8) }];
+                // now and then the owner object goes into a task of its own arbiter and is joined there
+                if !(with_sys && arb == sys_pos) && !no_owner[arb] && rng.chance(1, 12) {
+                    kind = "selfjoin";
+                    no_owner[arb] = true;
+                }
                 writeln!(w, "spawn {arb} {via} {kind}").unwrap();
                 tasks.push(arb);
                 if style == 2 && rng.chance(1, 4) && !stopped[arb] && held[arb].is_none() {
@@ -2727,6 +2957,8 @@ fn gen_c10(a: &Args, w: &mut dyn Write) {
     writeln!(w, "case bad2 c10\narb\nspawn 0 own fn\nident\narb early\nstop sys-pre 1").unwrap();
     writeln!(w, "case bad3 c10\nhost 0 kept\nhost 4 kept\nhost 1 gone\nhost 2 kept\nhost 1 dropped\nsysarb\nsysarb\narb\narb\narb\nident\nspawn 1 own gate\nspawn 1 own fn\nwait t1\nwait t0\nopen t1\nopen t0\nopen t0\nwait t1\nspawnn 1 own fn 1\nspawnn 1 own fn 301\nspawnn 1 own gate 5\nspawnn 1 h1 fn 3\nspawnn 0 own fut 300\nspawnn 0 own fut 100\nstop 0 own\nstop 1 own\ngo j=9\nstop 2 h2\ngo j=9").unwrap();
     writeln!(w, "case bad4 c10\narb\nhost 1 kept\nspawn 0 own fn\nsysarb\nstop 0 own\ngo j=1").unwrap();
+    writeln!(w, "case bad7 c10 rt=slow\nsysids 1 5\nsysids 9 5\nsysids 2 0\nsysids 2 1001\nsysids x 1\nsysarb\narb\nspawn 0 own selfjoin\nspawnn 1 own selfjoin 2\nlate 1 dir\nspawn 1 h1 selfjoin\nstop 1 own\nstop 0 own\ngo j=6").unwrap();
+    writeln!(w, "case bad8 c10\narb\nspawn 0 h2 selfjoin\nspawn 0 h1 selfjoin\nlate 0 sys\nlate 0 dir\nstop 0 own\ngo j=7").unwrap();
     writeln!(w, "case bad6 c10\nlate 0 dir\nsysarb\narb\nlate 0 dir\nlate 1 sys\nlate 1 here\nlate 2 dir\nlate 1 dir\nlate 1 dir\nwait t0\nwait t1\nspawn 1 own fn\nwait t2\nstop 1 own\nstop 0 own\narb\ngo j=5").unwrap();
     writeln!(w, "case bad5 c10 rt=custom\narb\narb\nspawn 0 c0 fn\nspawn 0 own gate\nspawn 0 c0 fn\nspawn 0 t0 fn\nwait t0\nspawn 1 c0 fn\nspawn 0 c1 fn\nspawn 0 t9 fn\nspawn 0 tx fn\nspawn 1 t0 fn\nspawnn 0 c0 fn 3\nstop 1 c0\nstop 1 t0\nopen t0\nspawn 0 c0 fn\nstop 0 t0\nstop 0 own\ngo j=2").unwrap();
 }
